@@ -176,6 +176,104 @@ mod imp {
         }
         bad
     }
+
+    /// Polars Datetime columns: `titer::<DateTime<unit>>()` of a column stored in that unit yields the stored
+    /// instants (null -> NaT) and `len()` the length. unit: 0 = ns, 1 = us, 2 = ms.
+    pub fn datetime_column(vals: &[Option<i64>], chunks: &[usize], unit: u8) -> Outcome<(usize, Vec<Cell>)> {
+        use polars::prelude::{DatetimeChunked, Int64Chunked, NewChunkedArray, TimeUnit};
+        let mut pos = 0;
+        let mut ca: Option<Int64Chunked> = None;
+        for &c in chunks {
+            let part = Int64Chunked::from_slice_options("".into(), &vals[pos..pos + c]);
+            pos += c;
+            ca = Some(match ca {
+                None => part,
+                Some(mut acc) => {
+                    acc.append(&part).unwrap();
+                    acc
+                }
+            });
+        }
+        let ca = ca.unwrap_or_else(|| Int64Chunked::from_slice_options("".into(), &[]));
+        let tu = [TimeUnit::Nanoseconds, TimeUnit::Microseconds, TimeUnit::Milliseconds][unit as usize];
+        let dt: DatetimeChunked = ca.into_datetime(tu, None);
+        catch(move || {
+            let r = &dt;
+            let cell = |nat: bool, v: i64| if nat { Cell::Null } else { Cell::I(v) };
+            let items: Vec<Cell> = match unit {
+                0 => TIter::<DateTime<unit::Nanosecond>>::titer(&r).map(|d| cell(d.is_nat(), d.0)).collect(),
+                1 => TIter::<DateTime<unit::Microsecond>>::titer(&r).map(|d| cell(d.is_nat(), d.0)).collect(),
+                _ => TIter::<DateTime<unit::Millisecond>>::titer(&r).map(|d| cell(d.is_nat(), d.0)).collect(),
+            };
+            (GetLen::len(&dt), items)
+        })
+    }
+
+    /// Polars String column: accessors of `&StringChunked`
+    pub fn string_column(vals: &[Option<String>], chunks: &[usize]) -> Outcome<Vec<String>> {
+        use polars::prelude::{NewChunkedArray, StringChunked};
+        let mut pos = 0;
+        let mut ca: Option<StringChunked> = None;
+        for &c in chunks {
+            let part = StringChunked::from_iter_options("".into(), vals[pos..pos + c].iter().cloned());
+            pos += c;
+            ca = Some(match ca {
+                None => part,
+                Some(mut acc) => {
+                    acc.append(&part).unwrap();
+                    acc
+                }
+            });
+        }
+        let ca = ca.unwrap_or_else(|| StringChunked::from_iter_options("".into(), std::iter::empty::<Option<String>>()));
+        let want: Vec<Option<String>> = vals.to_vec();
+        catch(move || {
+            let v = &ca;
+            let n = want.len();
+            let mut bad = vec![];
+            let own = |x: Option<&str>| x.map(|s| s.to_string());
+            if <&StringChunked as GetLen>::len(&v) != n {
+                bad.push(format!("len() = {}", <&StringChunked as GetLen>::len(&v)));
+                return bad;
+            }
+            for i in 0..=n {
+                match <&StringChunked as Vec1View<Option<&str>>>::get(&v, i) {
+                    Ok(x) if i < n && own(x) == want[i] => {}
+                    Err(_) if i == n => {}
+                    other => bad.push(format!("get({i}) = {:?}", other.map(own).map_err(|e| e.to_string()))),
+                }
+                if i < n {
+                    let x = unsafe { v.uget(i) };
+                    if own(x) != want[i] {
+                        bad.push(format!("uget({i}) = {:?}", x));
+                    }
+                }
+            }
+            let fwd: Vec<Option<String>> = v.titer().map(own).collect();
+            if fwd != want {
+                bad.push(format!("titer() = {fwd:?}"));
+            }
+            let mut bwd: Vec<Option<String>> = v.titer().rev().map(own).collect();
+            bwd.reverse();
+            if bwd != want {
+                bad.push(format!("titer().rev() reversed = {bwd:?}"));
+            }
+            for a in 0..=n {
+                for b in a..=n {
+                    match <&StringChunked as Vec1View<Option<&str>>>::slice(&v, a, b) {
+                        Ok(s) => {
+                            let items: Vec<Option<String>> = (&s).into_iter().map(own).collect();
+                            if items != want[a..b] {
+                                bad.push(format!("slice({a},{b}) = {items:?}"));
+                            }
+                        }
+                        Err(e) => bad.push(format!("slice({a},{b}) = Err({e})")),
+                    }
+                }
+            }
+            bad
+        })
+    }
 }
 use imp::*;
 
@@ -437,6 +535,36 @@ fn check_word(word: &[u8], alpha: &[X], level: u8, ctx: &mut Ctx) {
         let reference = reference::<Option<f64>>(&x, false);
         let mut vis = Vis { x: &x, word, tname: "Option<f64>", numeric: false, reference: &reference, ctx };
         for_backends_opt(&x, level, &mut vis);
+    }
+    // typed Polars columns: Datetime in the three units and String, under every chunking
+    {
+        let fam = "polars-typed-columns";
+        ctx.fam(fam).states += 1;
+        ctx.nontrivial(fam, hash_bytes(word));
+        // instants around the epoch and far from it, so that a unit mix-up cannot go unnoticed
+        let ints: Vec<Option<i64>> = x.iter().map(|v| v.map(|a| (a as i64 - 1) * 1_234_567_891)).collect();
+        let strs: Vec<Option<String>> = x.iter().map(|v| v.map(|a| if a == 0.0 { String::new() } else { format!("s{a}é") })).collect();
+        let want: Vec<Cell> = ints.iter().map(|v| v.map_or(Cell::Null, Cell::I)).collect();
+        for ch in chunkings(x.len()) {
+            for unit in 0..3u8 {
+                let got = datetime_column(&ints, &ch, unit);
+                ctx.eval(fam, hash_bytes(format!("{got:?}").as_bytes()));
+                ctx.transitions += 1;
+                let ok = matches!(&got, Outcome::Ok((n, items)) if *n == x.len() && cells_eq(items, &want, exact_eq));
+                if !ok {
+                    let uname = ["ns", "us", "ms"][unit as usize];
+                    // F36: the millisecond impl matched TimeUnit::Microseconds
+                    let f36 = unit == 2 && format!("{got:?}").contains("should be milliseconds unit");
+                    viol(ctx, format!("DatetimeChunked({uname}).titer::<DateTime<{uname}>>"), if f36 { Some("F36".into()) } else { None }, x.len() * 100, json!({"family": fam, "word": word, "instants": ints, "unit": uname, "chunks": ch}), format!("len {} and the stored instants {}", x.len(), show_cells(&want)), format!("{got:?}").chars().take(300).collect());
+                }
+            }
+            let got = string_column(&strs, &ch);
+            ctx.eval(fam, hash_bytes(format!("{got:?}").as_bytes()));
+            ctx.transitions += 1;
+            if !matches!(&got, Outcome::Ok(bad) if bad.is_empty()) {
+                viol(ctx, "accessors(&StringChunked)".into(), None, x.len() * 100, json!({"family": fam, "word": word, "strings": strs, "chunks": ch}), "all accessors describe the strings".into(), format!("{got:?}").chars().take(300).collect());
+            }
+        }
     }
 }
 
